@@ -810,7 +810,10 @@ def _judge_ctf(label, snap, res, exc):
         return
     if not _domains_follow_convention(ref, doms):
         kernel.count("C09:domain-graphs-outside-convention-skipped")
-        return
+        if exc is None:
+            return
+        # (an error other than FAIL on an input that passes the procedure's own validation is judged all the same)
+        kernel.count("C09:errors-outside-convention-judged")
     query = out_ev + cond_ev
     g = _names_rg(ref)
     valued = [c for c in query if c[2] is not None]
@@ -968,6 +971,7 @@ def _snap_ctf(label, event, outcomes, conditions, target_domain_graph, domain_gr
         cond_ev = [] if label == "ctfTRu" else gev.from_event(conditions)
     except Exception:  # noqa: BLE001
         valid, out_ev, cond_ev = False, [], []
+    FACTS["inner_valid"] = valid
     c = kernel.LOG.case
     if isinstance(c, dict) and c.get("via") == "wrapper" and valid:
         # the CFTDomain / valued-variable call form: what reaches the algorithm must be what the caller wrote
@@ -1029,10 +1033,32 @@ def _raise_ctfc(snap, exc, **kw):
         _judge_ctf("ctfTR", snap, None, exc)
 
 
+def _raise_wrapper(label):
+    def on_raise(snap, exc, **kw):
+        c = kernel.LOG.case
+        if isinstance(c, dict) and c.get("via") == "wrapper" and c.get("direct_form_passes_validation") \
+                and FACTS.get("inner_valid") is False:
+            # the same query in the tuple form passes y0's validation, but what the wrapper handed to the algorithm did
+            # not: the wrapper spoiled a valid input
+            kernel.violation("C09", "wrapper-total", f"{label} raised {type(exc).__name__}: {str(exc)[:200]} although the "
+                             f"same arguments in the tuple form pass the algorithm's own validation", case=dict(c))
+
+    return on_raise
+
+
+def _pre_wrapper(**kw):
+    FACTS["inner_valid"] = None
+    return {}
+
+
 def install_ctf():
     import y0.algorithm.counterfactual_transport.api as api
 
     install_blocks()
+    kernel.install_function(api, "unconditional_cft", label="unconditional_cft", pre=_pre_wrapper,
+                            on_raise=_raise_wrapper("unconditional_cft"))
+    kernel.install_function(api, "conditional_cft", label="conditional_cft", pre=_pre_wrapper,
+                            on_raise=_raise_wrapper("conditional_cft"))
     kernel.install_function(api, "transport_unconditional_counterfactual_query", label="ctfTRu", pre=_pre_ctfu,
                             post=_post_ctfu, on_raise=_raise_ctfu)
     kernel.install_function(api, "transport_conditional_counterfactual_query", label="ctfTR", pre=_pre_ctfc,
